@@ -1091,4 +1091,107 @@ theorem pairwise_rank_append (l1 l2 : List Kind) (r : Nat) (h1 : ∀ x ∈ l1, x
     (l1 ++ l2).Pairwise (fun x y => x.rank ≤ y.rank) :=
   List.pairwise_append.mpr ⟨p1, p2, fun x hx y hy => Nat.le_trans (h1 x hx) (h2 y hy)⟩
 
+/-! ## module-level ignore -/
+
+theorem minLine_none (ign : List (Nat × Codes)) : minLine ign = none ↔ ign = [] := by
+  cases ign with
+  | nil => simp [minLine]
+  | cons p r =>
+    simp only [minLine]
+    cases minLine r <;> simp
+
+theorem minLine_some (ign : List (Nat × Codes)) : ∀ m, minLine ign = some m →
+    (∃ p ∈ ign, p.1 = m) ∧ ∀ p ∈ ign, m ≤ p.1 := by
+  induction ign with
+  | nil => intro m h; simp [minLine] at h
+  | cons q r ih =>
+    intro m h
+    simp only [minLine] at h
+    cases hr : minLine r with
+    | none =>
+      rw [hr] at h
+      simp only [Option.some.injEq] at h
+      have : r = [] := (minLine_none r).mp hr
+      subst this; subst h
+      exact ⟨⟨q, List.mem_cons_self, rfl⟩, fun p hp => by simp at hp; rw [hp]; exact Nat.le_refl _⟩
+    | some m' =>
+      rw [hr] at h
+      simp only [Option.some.injEq] at h
+      obtain ⟨⟨p', hp', hpm⟩, hall⟩ := ih m' hr
+      by_cases hle : q.1 ≤ m'
+      · simp only [hle, if_true] at h
+        subst h
+        refine ⟨⟨q, List.mem_cons_self, rfl⟩, ?_⟩
+        intro p hp
+        cases List.mem_cons.mp hp with
+        | inl e => rw [e]; exact Nat.le_refl _
+        | inr e => exact Nat.le_trans hle (hall p e)
+      · simp only [hle, if_false] at h
+        subst h
+        refine ⟨⟨p', List.mem_cons_of_mem _ hp', hpm⟩, ?_⟩
+        intro p hp
+        cases List.mem_cons.mp hp with
+        | inl e => rw [e]; omega
+        | inr e => exact hall p e
+
+theorem moduleIgnore_whole_iff (ign : List (Nat × Codes)) (s : FirstStmt) :
+    (moduleIgnore ign (some s)).wholeModule = true ↔ ∃ p ∈ ign, p.1 < getLineno s := by
+  unfold moduleIgnore
+  cases hm : minLine ign with
+  | none =>
+    have : ign = [] := (minLine_none ign).mp hm
+    subst this
+    simp
+  | some m =>
+    obtain ⟨⟨p, hp, hpm⟩, hall⟩ := minLine_some ign m hm
+    simp only
+    by_cases hlt : m < getLineno s
+    · simp only [hlt, if_true, true_iff]
+      exact ⟨p, hp, by omega⟩
+    · simp only [hlt, if_false]
+      constructor
+      · intro h; cases h
+      · rintro ⟨q, hq, hql⟩
+        have := hall q hq
+        omega
+
+theorem moduleIgnore_fired (ign : List (Nat × Codes)) (s : FirstStmt)
+    (h : (moduleIgnore ign (some s)).wholeModule = true) :
+    ∃ m, minLine ign = some m ∧ m < getLineno s ∧ (∀ p ∈ ign, m ≤ p.1) ∧
+      (moduleIgnore ign (some s)).ignores = ign.filter (fun p => p.1 != m) ∧
+      ((moduleIgnore ign (some s)).errCodes = none ∨
+        ∃ c cs, lookupLine m ign = some (c :: cs) ∧ (moduleIgnore ign (some s)).errCodes = some (m, c :: cs)) := by
+  unfold moduleIgnore at h ⊢
+  cases hm : minLine ign with
+  | none => rw [hm] at h; simp at h
+  | some m =>
+    rw [hm] at h
+    simp only at h ⊢
+    by_cases hlt : m < getLineno s
+    · simp only [hlt, if_true]
+      refine ⟨m, rfl, hlt, (minLine_some ign m hm).2, rfl, ?_⟩
+      cases hl : lookupLine m ign with
+      | none => left; rfl
+      | some cs =>
+        cases cs with
+        | nil => left; rfl
+        | cons c cs => right; exact ⟨c, cs, rfl, rfl⟩
+    · simp [hlt] at h
+
+theorem moduleIgnore_not_fired (ign : List (Nat × Codes)) (first : Option FirstStmt)
+    (h : (moduleIgnore ign first).wholeModule = false) :
+    (moduleIgnore ign first).ignores = ign ∧ (moduleIgnore ign first).errCodes = none := by
+  unfold moduleIgnore at h ⊢
+  cases first with
+  | none => simp
+  | some s =>
+    cases hm : minLine ign with
+    | none => simp
+    | some m =>
+      rw [hm] at h
+      simp only at h ⊢
+      by_cases hlt : m < getLineno s
+      · simp [hlt] at h
+      · simp [hlt]
+
 end ParseNorm
